@@ -111,6 +111,20 @@ def checkWmcLine (kvs : List (String × String)) (rhs : String) : String := Id.r
   let specCr := wsum Sem.realOps vars wrW d.eval a0
   if cr != specCr then return s!"FAIL SPEC real count {showRat cr}, brute-force {showRat specCr}"
   if cr != Bdd.wmc Sem.realOps wrW d then return "FAIL MODEL real count"
+  -- complex weights in quarters, low + high = 1 (mixed real / non-real)
+  let wcS := ((lookup kvs "wc").getD "").splitOn ","
+  let wcW : Weights Sem.Cx := fun v =>
+    match ((wcS.getD v "").splitOn ":").mapM String.toInt? with
+    | some [a, b] => (⟨mkRat a 4, mkRat b 4⟩, ⟨1 - mkRat a 4, - mkRat b 4⟩)
+    | _ => (⟨0, 0⟩, ⟨1, 0⟩)
+  let specCx := wsum Sem.cxOps vars wcW d.eval a0
+  let specCxN := wsum Sem.cxOps vars wcW (fun a => !d.eval a) a0
+  let showCx (z : Sem.Cx) : String := s!"{showRat z.re},{showRat z.im}"
+  if lookup okv "cx" != some (showCx specCx) then
+    return s!"FAIL SPEC complex count {lookup okv "cx"}, brute-force sum over models {showCx specCx}"
+  if lookup okv "cxn" != some (showCx specCxN) then
+    return s!"FAIL SPEC complex count of the negation {lookup okv "cxn"}, brute-force sum over models {showCx specCxN}"
+  if showCx (Bdd.wmc Sem.cxOps wcW d) != showCx specCx then return "FAIL MODEL complex count"
   -- node count
   let some nodes := (lookup okv "nodes").bind parseNat? | return "FAIL PARSE nodes"
   if nodes != (nodesOf d []).length then return s!"FAIL SPEC count_nodes {nodes}, distinct nodes {(nodesOf d []).length}"
